@@ -185,13 +185,13 @@ type vpMachine struct {
 	disc     bool
 	cleanup  bool
 	// what to assert
-	checkTables bool // C10
+	checkTables  bool // C10
 	checkReturns bool // return values are not part of any property: never asserted
-	checkCIDR   bool // C08
-	checkOther  bool // C09
+	checkCIDR    bool // C08
+	checkOther   bool // C09
 	// statistics of the last lookup (for non-triviality)
-	lookupNT bool
-	classes  map[string]bool
+	lookupNT      bool
+	classes       map[string]bool
 	excludeMapped bool
 	skippedMapped int
 }
